@@ -32,13 +32,17 @@ TEXTS = {
                  'quantize() after reload rests on C11 (function of rule list) + C14. Axioms: none.'),
     },
     'C13': {
-        'level': ('Finite-domain proof: forallb over the whole 23040-point lattice by vm_compute lifted '
-                  'with forallb_forall: accepted => materializer registered, mode defined, pair in the '
-                  'kernel support table; acceptance = kernel support exactly; every other point is '
-                  'ValueError or not constructible; * / specific-op consistency proved for all checks. '
-                  'Exhaustive correspondence of the classification with the implementation.'),
-        'note': ('Spec/KernelTypes.v is a trusted transcription of LiteRT kernel support, validated by '
-                 'execution. Axioms: none.'),
+        'level': ('Finite-domain proof: forallb over the whole 23040-point lattice by vm_compute lifted with '
+                  'forallb_forall: accepted => materializer registered, mode defined and - outside ONE class - pair in '
+                  'the kernel support table; acceptance = kernel support exactly, plus that class; the class '
+                  '(dynamic-range DEPTHWISE_CONV_2D, per-tensor int8 weights) is a _refuted theorem whose witness the '
+                  'runtime step replays on the implementation (garbage outputs: known finding F20); every other point is '
+                  'ValueError or not constructible; * / specific-op consistency proved for all checks. Exhaustive '
+                  'correspondence of the classification with the implementation, and a runtime step that quantizes a '
+                  'single-op model for EVERY accepted pair, runs it in the interpreter and compares float-compute modes '
+                  'with the float op on dequantized constants.'),
+        'note': ('Spec/KernelTypes.v is a trusted transcription of LiteRT kernel support, validated by execution of every '
+                 'accepted pair. Axioms: none.'),
     },
     'C01': {
         'level': ('Unbounded step theorems on the performer model (all subgraphs, tensors, consumer lists, '
